@@ -1,10 +1,269 @@
-import GS.Model.ReqLifecycle
+import GSProofs.Lemmas.ReqLifeErr
 import GS.Temporal
-/-! # C04 — Every request's result channels terminate with the right outcome (work in progress) -/
+/-!
+# C04 — Every request's result channels terminate with the right outcome
+
+Property sentence (properties.jsonl): *Once the responder sends a terminal status for a request, or the
+caller cancels it through its context or the cancel API, both channels returned for it are eventually
+closed provided the caller keeps reading them, and nothing is delivered after they close.  Caller
+cancellation yields a client-cancelled error and sends a cancel to the responder, and a responder failure
+status yields a terminal error identifying that status.*
+
+All theorems are about the transition system `GS.ReqLife.step` (lean/GS/Model/ReqLifecycle.lean) and hold
+for EVERY reachable state, i.e. for all histories of environment inputs and all schedules of the
+manager, worker, traverser and collector goroutines (`Reachable` = any finite sequence of actions from
+`init`, with arbitrary traversal / loader outcomes as action parameters).
+
+The two guards `releasePauseGuardChecksCtx` and `goOnlineChecksCtx` are GENERATED from the Go source;
+the invariant (and with it every theorem below) is proved for the source in which both are present
+(`repairs_present`, by `rfl` on the generated definitions).
+-/
 namespace GS.C04
-open GS.ReqLife GS.Generated
+open GS.ReqLife GS.Generated GS.Generated.StatusCodes
 
 /-- the stage order of `terminateRequest` that the model mirrors is the one in the source. -/
 theorem terminate_stages_match : ReqLifecycleSpec.terminateStages = modelTerminateStages := by decide
+
+/-- both repairs of the pause/cancel defects are present in the source the model was generated from. -/
+theorem repairs_present :
+    ReqLifecycleSpec.releasePauseGuardChecksCtx = true ∧ ReqLifecycleSpec.goOnlineChecksCtx = true := ⟨rfl, rfl⟩
+
+theorem reachable_inv {s : State} (h : Reachable s) : Inv s ∧ InvRet s ∧ InvErr s :=
+  all_reachable repairs_present.1 repairs_present.2 h
+
+/-! ## Safety 1: `close_once` -/
+
+/-- **close_once.** *"nothing is delivered after they close"*: in every reachable state each of the two
+    returned channels carries `close` at most once and, if it does, as its last event (so nothing is sent
+    on it afterwards); and no goroutine ever sent on / closed an already closed internal channel
+    (`inProgressChan`, `inProgressErr`), which in Go would be a panic. -/
+theorem close_once {s : State} (h : Reachable s) :
+    ClosedOnce s.retP ∧ ClosedOnce s.retE ∧ s.panicked = false := by
+  obtain ⟨hi, hr, _⟩ := reachable_inv h
+  refine ⟨?_, ?_, hi.p0⟩
+  · by_cases hc : s.cp = .done
+    · obtain ⟨pre, e, hp⟩ := hr.pDone hc; exact closedOnce_of_done e hp
+    · exact closedOnce_of_open (hr.pOpen hc)
+  · by_cases hc : s.ce = .done
+    · obtain ⟨pre, e, hp⟩ := hr.eDone hc; exact closedOnce_of_done e hp
+    · exact closedOnce_of_open (hr.eOpen hc)
+
+/-- reading of `ClosedOnce`: whatever follows a `close` is empty. -/
+theorem nothing_after_close {α : Type} {l pre post : List (ChanEv α)} (h : ClosedOnce l)
+    (e : l = pre ++ [ChanEv.close] ++ post) : post = [] := by
+  obtain ⟨h1, h2⟩ := h
+  have hc : closes l = closes pre + 1 + closes post := by
+    subst e; simp [closes, isCloseEv, List.countP_append, List.countP_cons]; omega
+  have hpost : closes post = 0 := by omega
+  obtain ⟨pre', e', _⟩ := h2 (by omega)
+  cases hpo : post.getLast? with
+  | none => exact List.getLast?_eq_none_iff.mp hpo
+  | some x =>
+    exfalso
+    have hne : post ≠ [] := by intro hh; simp [hh] at hpo
+    have h1' : l.getLast? = some x := by
+      subst e; rw [List.getLast?_append, hpo]; rfl
+    have h2' : l.getLast? = some ChanEv.close := by rw [e']; simp
+    have hx : x = ChanEv.close := by rw [h1'] at h2'; exact Option.some.inj h2'
+    have hmem : ChanEv.close ∈ post := by rw [← hx]; exact List.mem_of_getLast? hpo
+    have : 0 < closes post := List.countP_pos_iff.mpr ⟨_, hmem, rfl⟩
+    omega
+
+/-- the collector closes a returned channel exactly when its goroutine ends. -/
+theorem closed_iff_done {s : State} (h : Reachable s) :
+    (s.cp = .done ↔ closes s.retP = 1) ∧ (s.ce = .done ↔ closes s.retE = 1) := by
+  obtain ⟨_, hr, _⟩ := reachable_inv h
+  constructor
+  · constructor
+    · intro hc; obtain ⟨pre, e, hp⟩ := hr.pDone hc
+      rw [e]; simp [closes, isCloseEv, List.countP_append] at *; omega
+    · intro hc; apply Classical.byContradiction; intro hn; have := hr.pOpen hn; omega
+  · constructor
+    · intro hc; obtain ⟨pre, e, hp⟩ := hr.eDone hc
+      rw [e]; simp [closes, isCloseEv, List.countP_append] at *; omega
+    · intro hc; apply Classical.byContradiction; intro hn; have := hr.eOpen hn; omega
+
+/-! ## Safety 2: `cancel_outcome` -/
+
+/-- **cancel_outcome (message), exact condition.**  *"sends a cancel to the responder"*: handling a cancel
+    message (from `CancelRequest`: `api = true`, or from the collector's `cancelRequestAndClose` after the
+    caller's context was cancelled: `api = false`) puts a cancel request for the request's own peer in the
+    outbox **iff the manager still tracks the request** -- in every live state: queued (even if the
+    request was never sent to the network), running, paused -- and never otherwise. -/
+theorem cancel_message_iff_live (s : State) (api : Bool) :
+    (handle s (.cancel api)).outbox =
+      if s.reg = .live then s.outbox ++ [{ kind := .cancel, peer := s.peer }] else s.outbox := by
+  simp only [handle, cancelOnError, terminate, finishTerminate]
+  (repeat' split) <;> simp_all
+
+/-- every message the requestor ever sends for this request goes to the request's own peer. -/
+theorem outbox_own_peer {s : State} (h : Reachable s) : ∀ o ∈ s.outbox, o.peer = s.peer :=
+  invOut_reachable h
+
+/-- `CancelRequest` handled while the request is tracked and has no terminal error yet records
+    `RequestClientCancelledErr` as its terminal error (first cause wins: `cancelOnError` keeps an earlier one). -/
+theorem cancel_api_records_cc (s : State) (hl : s.reg = .live) :
+    (handle s (.cancel true)).termErr = (if s.termErr.isNone then some Err.cc else s.termErr) := by
+  simp only [handle, cancelOnError, terminate, finishTerminate]
+  (repeat' split) <;> simp_all
+
+/-- **cancel_outcome (API).**  *"Caller cancellation yields a client-cancelled error"*: if the request's
+    terminal error is `RequestClientCancelledErr` (i.e. `CancelRequest` was the first cause, see
+    `cancel_api_records_cc`), then once the error channel is closed a `RequestClientCancelledErr` has been
+    delivered on it -- whatever the schedule, also if the caller's context was cancelled as well. -/
+theorem cancel_outcome_api {s : State} (h : Reachable s) (ht : s.termErr = some Err.cc) (hc : s.ce = .done) :
+    Err.cc ∈ sends s.retE := by
+  obtain ⟨hi, _, he⟩ := reachable_inv h
+  rcases hi.n3d hc with hg | hctx
+  · have := he.gApi ht hg
+    simp [ceBuf, ccPromise, hc] at this
+    exact this
+  · by_cases hg : s.reg = .gone
+    · have := he.gApi ht hg
+      simp [ceBuf, ccPromise, hc] at this
+      exact this
+    · exact he.d1 hc hg
+
+/-- **cancel_outcome (context).**  If the caller's context is cancelled before the error collector has
+    seen `inProgressErr` closed (`ctxWhileOpen`), a `RequestClientCancelledErr` has been delivered by the
+    time the error channel is closed. -/
+theorem cancel_outcome_ctx {s : State} (h : Reachable s) (ht : s.ctxWhileOpen = true) (hc : s.ce = .done) :
+    Err.cc ∈ sends s.retE := by
+  obtain ⟨_, _, he⟩ := reachable_inv h
+  have := he.gCtx ht
+  simp [ccPromise, hc] at this
+  exact this
+
+/-- any state produced by running a list of actions from a reachable state is reachable -/
+theorem reachable_run {s s' : State} {acts : List Action} (h : Reachable s) (hr : run s acts = some s') :
+    Reachable s' := by
+  induction acts generalizing s with
+  | nil => simp [run] at hr; subst hr; exact h
+  | cons a as ih =>
+    simp only [run] at hr
+    cases hs : step s a with
+    | none => simp [hs] at hr
+    | some s1 => simp [hs] at hr; exact ih (Reachable.step h hs) hr
+
+theorem reachable_of_trace {p e t : Nat} {acts : List Action} (h : (run (init p e t) acts).isSome = true) :
+    Reachable ((run (init p e t) acts).get h) :=
+  reachable_run (Reachable.init p e t) (Option.some_get h).symm
+
+/-- the stronger sentence "cancellation ⇒ EXACTLY one client-cancelled error" is false of the code: when
+    the error collector sees `inProgressErr` closed while it still buffers an error and the caller's
+    context is done, it reports the cancellation, loops, and may report it a second time
+    (responsecollector.go, the `!ok` branch followed by the `requestCtx.Done()` branch). -/
+def ccTwiceTrace : List Action :=
+  [.envNew, .mgr, .envResp 0 14 0 true, .mgr, .ceRecv, .envCtxCancel, .ceSeeClose, .ceDeliverCC, .ceSeeCtx,
+   .ceDeliverCC]
+
+theorem cancel_outcome_cc_twice_counterexample :
+    ∃ s, Reachable s ∧ s.ce = .done ∧ (sends s.retE).count Err.cc = 2 :=
+  ⟨_, reachable_of_trace (p := 0) (e := 10) (t := 10) (acts := ccTwiceTrace) (by decide), by decide, by decide⟩
+
+/-- non-vacuity of `cancel_outcome_api` and `cancel_message_iff_live`: `CancelRequest` on a request that is
+    still queued and was never sent to the network: the cancel message goes out nevertheless, the
+    client-cancelled error is delivered, both channels close. -/
+def cancelQueuedTrace : List Action :=
+  [.envNew, .mgr, .wPop, .envCancelApi, .mgr, .ceRecv, .ceSeeClose, .ceDeliver, .ceExit, .cpSeeClose, .cpExit]
+
+example : ((run (init 7 10 10) cancelQueuedTrace).map fun s =>
+    (s.termErr, sends s.retE, s.outbox, bothClosed s, s.apiLog)) =
+    some (some Err.cc, [Err.cc], [{ kind := .cancel, peer := 7 }], true, [ApiRes.cancelOk]) := by decide
+
+/-- non-vacuity of `cancel_outcome_ctx`: context cancelled while the executor waits for the remote. -/
+def cancelCtxTrace : List Action :=
+  [.envNew, .mgr, .wPop, .wGet, .mgr, .xTop, .xWaitLocal, .xRead false 0 false, .xSendReq,
+   .envCtxCancel, .ceSeeCtx, .ceDeliverCC, .cpSeeCtx, .cpSendCancel, .mgr, .xWaitLocal, .xRead false 0 false,
+   .mgr, .cpSeeCloseP, .cpSeeCloseE, .cpCancelExit]
+
+example : ((run (init 3 10 10) cancelCtxTrace).map fun s =>
+    (s.ctxWhileOpen, sends s.retE, s.outbox, bothClosed s)) =
+    some (true, [Err.cc], [{ kind := .req, peer := 3 }, { kind := .cancel, peer := 3 }], true) := by decide
+
+/-! ## Safety 3: `failure_outcome` -/
+
+/-- every failure status has an error (`AsError` never returns nil for it) -- over the generated tables. -/
+theorem asError_of_failure : ∀ c ∈ failureCodes, (asError c).isSome = true := by decide
+
+/-- *"identifying that status"*: distinct failure statuses have distinct errors. -/
+theorem asError_identifies : ∀ a ∈ failureCodes, ∀ b ∈ failureCodes, asError a = asError b → a = b := by decide
+
+theorem isFailure_mem {c : Nat} (h : isFailure c = true) : c ∈ failureCodes := by
+  simpa [isFailure] using h
+
+/-- a failure status is terminal and not a success (table facts used by `processTerminations`). -/
+theorem failure_is_terminal : ∀ c ∈ failureCodes, isTerminal c = true ∧ isSuccess c = false := by decide
+
+/-- **failure_outcome (recording).**  A failure status `c` from the request's own peer (response hook ok),
+    processed while the request is tracked and has no terminal error yet, makes `asError c` -- the value of
+    the generated `AsError` table -- the request's terminal error. -/
+theorem cancelOnError_termErr (s : State) (e : Option Err) :
+    (cancelOnError s e).termErr = if s.termErr.isNone then e else s.termErr := by
+  simp only [cancelOnError, terminate, finishTerminate]
+  (repeat' split) <;> simp_all
+
+theorem failure_records_asError (s : State) (c items : Nat) (hl : s.reg = .live) (hf : isFailure c = true)
+    (hn : s.termErr = none) :
+    ∃ k, asError c = some k ∧ (handle s (.responses s.peer c items false)).termErr = some (Err.status k) := by
+  have hs := asError_of_failure c (isFailure_mem hf)
+  have ht := (failure_is_terminal c (isFailure_mem hf)).1
+  obtain ⟨k, hk⟩ := Option.isSome_iff_exists.mp hs
+  refine ⟨k, hk, ?_⟩
+  have hl1 : (s.reg == .live) = true := by simpa using hl
+  simp only [handle, hl1, beq_self_eq_true, Bool.and_self, Bool.and_false, Bool.false_eq_true, if_false, ite_self,
+    Bool.not_true, ht, hf, if_true, hk, Option.map_some]
+  (repeat' split) <;> simp [cancelOnError_termErr, hn]
+
+/-- **failure_outcome (delivery, exactly once).**  In every reachable state in which the request's terminal
+    error is the error of a failure status, that error has been delivered on the error channel AT MOST once;
+    and once the error channel is closed it has been delivered EXACTLY once -- unless the caller also
+    cancelled its context (then the collector may drop it in favour of the client-cancelled error). -/
+theorem failure_outcome {s : State} (h : Reachable s) {k : ErrKind} (ht : s.termErr = some (Err.status k)) :
+    (sends s.retE).count (Err.status k) ≤ 1 ∧
+    (s.ce = .done → s.callerCtx = false → (sends s.retE).count (Err.status k) = 1) := by
+  obtain ⟨hi, _, he⟩ := reachable_inv h
+  have hle : (sends s.retE).count (Err.status k) ≤ (sends s.retE).countP isStatus := by
+    rw [List.count_eq_countP]
+    apply List.countP_mono_left
+    intro x _ hx
+    have : x = Err.status k := by simpa using hx
+    subst this; rfl
+  have hc1 : (sends s.retE).countP isStatus ≤ 1 := by
+    by_cases hg : s.reg = .gone
+    · have := he.e2 hg; omega
+    · have := (he.e1 hg).2; omega
+  refine ⟨by omega, ?_⟩
+  intro hc hctx
+  have hg : s.reg = .gone := by
+    rcases hi.n3d hc with hg | hx
+    · exact hg
+    · simp [hctx] at hx
+  have hm := he.e3 hg hctx _ ht
+  simp [ceBuf, hc] at hm
+  have : 0 < (sends s.retE).count (Err.status k) := List.count_pos_iff.mpr hm
+  omega
+
+/-- non-vacuity of `failure_outcome`: RequestFailedBusy (31) arrives while the executor waits for the
+    remote; exactly one `RequestFailedBusyErr` is delivered, both channels close, no cancel message. -/
+def failureTrace : List Action :=
+  [.envNew, .mgr, .wPop, .wGet, .mgr, .xTop, .xWaitLocal, .xRead false 0 false, .xSendReq,
+   .envResp 0 31 0 false, .mgr, .xWaitLocal, .xRead false 0 false, .mgr, .ceRecv,
+   .ceSeeClose, .ceDeliver, .ceExit, .cpSeeClose, .cpExit]
+
+example : ((run (init 0 10 10) failureTrace).map fun s => (s.termErr, sends s.retE, s.outbox, bothClosed s)) =
+    some (some (Err.status .RequestFailedBusyErr), [Err.status .RequestFailedBusyErr],
+      [{ kind := .req, peer := 0 }], true) := by decide
+
+/-- when the caller's context is cancelled as well, the failure error can be lost (the hypothesis
+    `callerCtx = false` of `failure_outcome` cannot be dropped). -/
+def failureLostTrace : List Action :=
+  [.envNew, .mgr, .envResp 0 31 0 false, .mgr, .ceRecv, .envCtxCancel, .ceSeeCtx, .ceDeliverCC]
+
+theorem failure_outcome_ctx_counterexample :
+    ∃ s, Reachable s ∧ s.termErr = some (Err.status .RequestFailedBusyErr) ∧ s.ce = .done ∧
+      (sends s.retE).count (Err.status .RequestFailedBusyErr) = 0 :=
+  ⟨_, reachable_of_trace (p := 0) (e := 10) (t := 10) (acts := failureLostTrace) (by decide), by decide, by decide,
+    by decide⟩
 
 end GS.C04
